@@ -83,7 +83,10 @@ def walk_local(node, include_root=True) -> Iterable[ast.AST]:
 def walk_body(func_node) -> Iterable[ast.AST]:
     """All nodes of a function's own body (nested defs opaque)."""
     for st in func_node.body:
-        yield from walk_local(st)
+        if isinstance(st, SCOPE_TYPES):
+            yield st  # a nested def / class is visible as a statement, its body is not
+        else:
+            yield from walk_local(st)
 
 
 def calls_in(node) -> List[ast.Call]:
